@@ -148,6 +148,9 @@ func gossipKnobs(r *Rand, c *Case) {
 		c.Knobs["gossip_drop_pct"] = int64(r.PickInt([]int{0, 0, 10, 30, 60}))
 		c.Knobs["gossip_dup_pct"] = int64(r.PickInt([]int{0, 10, 30}))
 		c.Knobs["gossip_maxdelay_ms"] = int64(r.PickInt([]int{10, 30, 100, 400}))
+		if sp := r.PickInt([]int{0, 0, 30, 70}); sp > 0 {
+			c.Knobs["gossip_split_pct"] = int64(sp)
+		}
 	}
 	if r.Bool(0.3) {
 		c.Knobs["maporder"] = int64(1 + r.Intn(1000))
@@ -978,6 +981,12 @@ func judgeXnode(w *world) {
 		unreachable := map[int]string{}
 		for _, rp := range w.rpcs {
 			if rp.Tag == p.tag && rp.Src == pubNode && rp.Outcome != "ok" {
+				if rp.Outcome == "ctx" {
+					// the broker gave up on a destination the simulator had left reachable (its deadline
+					// was spent before the call started): no excuse for not serving it
+					w.o.probe("call_abandoned_to_reachable_destination")
+					continue
+				}
 				unreachable[rp.Dst] = rp.Outcome
 			}
 		}
